@@ -35,6 +35,9 @@ func runC17(o Opts) error {
 		for len(cfg0.Devices) == 0 {
 			cfg0 = genCfg(r, ids)
 		}
+		if h%5 == 4 { // every fifth history: a client without any configured controller
+			cfg0.Devices = nil
+		}
 		// the caller's own data: a device slice with door-name slices
 		devs := []uhppote.Device{}
 		for _, d := range cfg0.Devices {
@@ -47,7 +50,11 @@ func runC17(o Opts) error {
 		var lists []map[uint32]uhppote.Device
 		steps := 8 + r.Intn(12)
 		for k := 0; k < steps; k++ {
-			switch r.Intn(7) {
+			step := r.Intn(7)
+			if len(devs) == 0 && step < 2 {
+				step = 2
+			}
+			switch step {
 			case 0: // change the caller's device entries
 				i := r.Intn(len(devs))
 				devs[i].Address = types.ControllerAddr{AddrPort: netip.AddrPortFrom(netip.AddrFrom4([4]byte{172, 16, byte(k), byte(1 + r.Intn(200))}), 4000)}
@@ -86,6 +93,11 @@ func runC17(o Opts) error {
 					case 3:
 						m[id+1] = uhppote.Device{DeviceID: id + 1, Address: types.ControllerAddr{AddrPort: netip.MustParseAddrPort("10.1.1.1:1")}}
 					}
+				}
+				// and insert an entry for a controller the operations below may address
+				inj := ids[r.Intn(len(ids))]
+				if _, present := m[inj]; !present || r.Intn(3) == 0 {
+					m[inj] = uhppote.Device{DeviceID: inj, Address: types.ControllerAddr{AddrPort: netip.MustParseAddrPort("10.77.77.77:7777")}, Protocol: "tcp", Doors: []string{"x"}}
 				}
 				mutations++
 			default: // an operation for one of the configured (or an unconfigured) controllers
